@@ -822,5 +822,7 @@ func TestGroupCreateRace(t *testing.T) {
 	thorough := os.Getenv("VERIF_TIER") == "thorough"
 	installPages()
 	defer uninstallPages()
-	rapid.Check(t, func(t *rapid.T) { runHistoryMode(t, "TestGroupCreateRace", thorough, false, true) })
+	rapid.Check(t, func(t *rapid.T) {
+		runHistoryMode(t, "TestGroupCreateRace", thorough, false, machineMode{createRace: true})
+	})
 }
